@@ -255,7 +255,7 @@ func typedEnumRun(t *schema.TypedStringEnumSchema[ukit.MyStr]) func(c *ctx, i in
 			}
 			w, e1 := t.Serialize(u)
 			tw, e2 := t.SerializeType(tv)
-			if (e1 == nil) != (e2 == nil) || (e1 == nil && fmt.Sprint(w) != fmt.Sprint(tw)) {
+			if (e1 == nil) != (e2 == nil) || (e1 == nil && (!ukit.Equiv(w, tw) || !ukit.IsWireValue(tw))) {
 				c.fail("SerializeType and Serialize disagree", fmt.Sprintf("value %s: Serialize -> %s, %v; SerializeType -> %s, %v", ukit.Show(u), ukit.Show(w), e1, ukit.Show(tw), e2), i, raw)
 			}
 		})
@@ -324,6 +324,12 @@ func run(tier string, raw json.RawMessage, from int, deadline time.Time) ux.Resu
 		}
 		ux.Progress(i)
 		c.pipeline(sch, i, v)
+		// the typed entry points of the very same schema object (whatever static type it has): same verdicts and values
+		c.guard("typed entry points", i, v, func() {
+			if d := ukit.TypedDisagreement(sch, v); d != "" {
+				c.fail(ukit.DisagreementClass(d)+" ("+kind(spec)+")", d, i, v)
+			}
+		})
 	}
 	if b.Spec%83 == 0 {
 		res.Samples = append(res.Samples, map[string]any{"schema": spec.String(), "raw_values_tried": len(vals), "accepted_and_round_tripped": res.Evaluations})
